@@ -610,7 +610,7 @@ class Visitor(ast.NodeVisitor):
             raise NotImplementedError("Unhandled op of {}: {}".format(node, node.op))
 
         result = None  # type: Optional[Any]
-        for value_node in node.values:
+        for i, value_node in enumerate(node.values):
             value = self.visit(value_node)
 
             # Please see "NOTE ABOUT PLACEHOLDERS AND RE-COMPUTATION"
@@ -620,6 +620,11 @@ class Visitor(ast.NodeVisitor):
                 return PLACEHOLDER
 
             result = value
+
+            if i == len(node.values) - 1:
+                # The last operand is the result whatever it is. Python does not ask for its truth value,
+                # and there might be none (*e.g.*, ``flag and an_array > 0``).
+                break
 
             # The remaining operands must not be evaluated: they are often defined only if the previous ones
             # hold (*e.g.*, ``lst and lst[0] > 0``).
